@@ -35,14 +35,14 @@ SPEC = dict(
                  "const access must throw); behind the storage it is an ASan report",
                  "unsigned long has 64 bits"],
     modes=[
-        dict(name="exh1", flavour="asan", cases=511 * 21, exhaustive=True, eval_stat="steps", timeout=900,
+        dict(name="exh1", flavour="asan", cases=511 * 21, exhaustive=True, eval_stat="steps", timeout=3600,
              require_stats=["grow.set(pos)", "grow.flip(pos)", "grow.reset(pos)", "grow.[]read", "grow.[]=",
                             "exc.expected_out_of_range", "iter.empty_bitset", "iter.all_zero_bitset",
                             "meta.compound_vs_binary", "walk.inc", "walk.dec", "to_ulong.value"]),
-        dict(name="exh2", flavour="asan", cases=511, exhaustive=True, eval_stat="steps", timeout=900,
+        dict(name="exh2", flavour="asan", cases=511, exhaustive=True, eval_stat="steps", timeout=3600,
              require_stats=["pairs.same_size", "pairs.different_size", "meta.compound_vs_binary"]),
         dict(name="hist", flavour="asan", cases={"quick": 20000, "thorough": 600000}, eval_stat="steps",
-             args={"ops": 100, "cap": 300}, timeout={"quick": 900, "thorough": 3600}, env=_HIST_ENV,
+             args={"ops": 100, "cap": 300}, timeout=3600, env=_HIST_ENV,
              require_stats=["grow.set(pos)", "grow.flip(pos)", "to_ulong.overflow", "to_ulong.value",
                             "meta.compound_vs_binary", "walk.inc", "walk.dec", "iter.positions"]),
     ],
